@@ -137,7 +137,7 @@ impl IJ {
 //@extract fn s_to_anchor from src/core/hilbert.rs ret=r tags=C14,C17
 //@rewrite "anchor.offset = IJ::new(\n                anchor.offset.x() + FLIP_SHIFT.x(),\n                anchor.offset.y() + FLIP_SHIFT.y(),\n            );" => "anchor.offset = ij_flip_shift(anchor.offset, true);"
 //@rewrite "anchor.offset = IJ::new(\n                anchor.offset.x() - FLIP_SHIFT.x(),\n                anchor.offset.y() - FLIP_SHIFT.y(),\n            );" => "anchor.offset = ij_flip_shift(anchor.offset, false);"
-//@rewrite "let new_j = (1 << resolution) as f64 - (i + j);" => "let new_j = f_pow2_minus_sum((1 << resolution), i, j);"
+//@rewrite "let $nj = (1 << resolution) as f64 - ($i + $j);" => "let $nj = f_pow2_minus_sum((1 << resolution), $i, $j);"
 //@spec
 requires
     resolution <= 30,
@@ -157,9 +157,12 @@ proof {
 #[verifier::external_body] pub fn ij_add(a: IJ, b: IJ) -> IJ { unimplemented!() }
 #[verifier::external_body] pub fn ij_div_pow2(a: IJ, p2: u64) -> IJ { unimplemented!() }
 #[verifier::external_body] pub fn ij_mul_pow2(a: IJ, p2: u64) -> IJ { unimplemented!() }
-// hilbert.rs::ij_to_quaternary: an if/else chain over float comparisons whose every arm assigns a digit 0..3
+// hilbert.rs::ij_to_quaternary: an if/else chain over float comparisons whose every arm assigns a digit 0..3, after the
+// i8 sum flips[0] + flips[1] (hence the precondition).  The contract is discharged on the real function for every finite
+// f64 pair by the Kani harness k14_ij_to_quaternary_total.
 #[verifier::external_body]
 pub fn ij_to_quaternary(ij: IJ, flips: [Flip; 2]) -> (r: Quaternary)
+    requires flip_ok(flips[0]) && flip_ok(flips[1]),
     ensures r < 4,
 { unimplemented!() }
 
@@ -210,7 +213,7 @@ pub proof fn lemma_pow4_shift(d: nat)
 
 //@extract fn ij_to_s_internal from src/core/hilbert.rs ret=r tags=C14,C17
 //@fnattr #[verifier::loop_isolation(false)]
-//@rewrite "let relative_offset = IJ::new(input.x() - pivot.x(), input.y() - pivot.y());" => "let relative_offset = ij_sub(input, pivot);"
+//@rewrite "let $ro = IJ::new($inp.x() - $pv.x(), $inp.y() - $pv.y());" => "let $ro = ij_sub($inp, $pv);"
 //@rewrite "let scale = 1.0 / (1u64 << i) as f64;\n        let scaled_offset = IJ::new(relative_offset.x() * scale, relative_offset.y() * scale);" => "let scaled_offset = ij_div_pow2(relative_offset, (1u64 << i));"
 //@rewrite "let upscaled_child_offset = IJ::new(\n            child_offset.x() * (1u64 << i) as f64,\n            child_offset.y() * (1u64 << i) as f64,\n        );" => "let upscaled_child_offset = ij_mul_pow2(child_offset, (1u64 << i));"
 //@rewrite "pivot = IJ::new(\n            pivot.x() + upscaled_child_offset.x(),\n            pivot.y() + upscaled_child_offset.y(),\n        );" => "pivot = ij_add(pivot, upscaled_child_offset);"
@@ -255,7 +258,7 @@ proof {
 //@end
 
 //@extract fn ij_to_s from src/core/hilbert.rs ret=r tags=C14,C17
-//@rewrite "ij = IJ::new(i, (1 << resolution) as f64 - (i + j));" => "ij = IJ::new(i, f_pow2_minus_sum((1 << resolution), i, j));"
+//@rewrite "$ij = IJ::new($i, (1 << resolution) as f64 - ($i + $j));" => "$ij = IJ::new($i, f_pow2_minus_sum((1 << resolution), $i, $j));"
 //@spec
 requires
     resolution <= 30,
